@@ -27,8 +27,8 @@ from functools import partial
 from . import cpu_count, get_context
 from . import util
 from .common import (
-    TERM_SIGNAL, human_status, pickle_loads, reset_signals, restart_state,
-    _should_have_exited,
+    TERM_SIGNAL, human_status, maybe_setsignal, pickle_loads, reset_signals,
+    restart_state, _should_have_exited,
 )
 from .compat import get_errno, mem_rss, send_offset
 from .einfo import ExceptionInfo
@@ -318,7 +318,16 @@ class Worker:
 
         if sys.platform != 'win32':
             try:
-                self.outq.put((DEATH, (pid, exitcode)))
+                # The parent answers DEATH with TERM_SIGNAL.  Once the
+                # shutdown handler has run that signal kills outright, so
+                # ignore it while we hold the queue's write lock: dying
+                # there would block every other writer forever.
+                handler = signal.getsignal(TERM_SIGNAL)
+                maybe_setsignal(TERM_SIGNAL, signal.SIG_IGN)
+                try:
+                    self.outq.put((DEATH, (pid, exitcode)))
+                finally:
+                    maybe_setsignal(TERM_SIGNAL, handler)
                 time.sleep(1)
             finally:
                 os._exit(exitcode)
